@@ -1,6 +1,10 @@
 import Autog.Json
 import Autog.Model.Pre
 import Autog.Model.Phase1
+import Autog.Model.Phase2
+import Autog.Model.Phase4
+import Autog.Model.Phase5
+import Autog.Model.Layout
 /-! T-fun: the models run on the phase-boundary snapshots of real `Layout` runs; the result is compared,
     in canonical form, with the next snapshot. Driver side. -/
 
@@ -26,8 +30,18 @@ def cmpG (key : String) (model : M G) (real : G) : TRes :=
     let c := g.canon
     if c == real then (key, true, "") else (key, false, diffG c real)
 
-def tfunLayout (cfg : Cfg) (es : InEdges) (comps : List (List (Int × G))) : List TRes := Id.run do
+def firstDiffOut (a b : Out) : String :=
+  if a.nodes.length != b.nodes.length then s!"node count {a.nodes.length} vs {b.nodes.length}"
+  else if a.edges.length != b.edges.length then s!"edge count {a.edges.length} vs {b.edges.length}"
+  else match (a.nodes.zip b.nodes).find? (fun (x, y) => x != y) with
+    | some (x, y) => s!"node {x.id}/{y.id}: x {x.x} vs {y.x}, y {x.y} vs {y.y}, layer {x.layer} vs {y.layer}"
+    | none => match (a.edges.zip b.edges).find? (fun (x, y) => x != y) with
+      | some (x, y) => s!"edge {x.src}>{x.dst} vs {y.src}>{y.dst}: {x.pts.map (·.length)} vs {y.pts.map (·.length)} points"
+      | none => ""
+
+def tfunLayout (cfg : Cfg) (es : InEdges) (comps : List (List (Int × G))) (real : Out) : List TRes := Id.run do
   let mut out : List TRes := []
+  let mut loopsOf : List (List Nat) := []
   -- everything before phase 1
   let pre := preProcess cfg es
   match pre with
@@ -36,6 +50,7 @@ def tfunLayout (cfg : Cfg) (es : InEdges) (comps : List (List (Int × G))) : Lis
     if cs.length != comps.length then
       out := out ++ [("T:pre", false, s!"{cs.length} components in the model, {comps.length} in the code")]
     else
+      loopsOf := cs.map (·.2)
       for ((g, _), c) in cs.zip comps do
         match stageOf c 0 with
         | some r => out := out ++ [cmpG "T:pre" (pure g) r]
@@ -46,6 +61,39 @@ def tfunLayout (cfg : Cfg) (es : InEdges) (comps : List (List (Int × G))) : Lis
       match stageOf c 0, stageOf c 1 with
       | some a, some b => out := out ++ [cmpG "T:phase1" (phase1 cfg.p1 a) b]
       | _, _ => pure ()
+  for (c, ci) in comps.zipIdx do
+    -- phase 2: LongestPath exactly; for both layerers the layer list is `buildLayers` of the node layers
+    match stageOf c 1, stageOf c 2 with
+    | some a, some b =>
+      if cfg.p2 == 1 then
+        let m := if a.nodes.size == 1 then buildLayers a else (execLongestPath a) >>= buildLayers
+        out := out ++ [cmpG "T:phase2-longestpath" m b]
+      out := out ++ [cmpG "T:layers" (buildLayers { b with layers := #[] }) b]
+    | _, _ => pure ()
+    -- phase 4
+    match stageOf c 3, stageOf c 4 with
+    | some a, some b =>
+      if cfg.p4 == 1 || cfg.p4 == 2 then
+        out := out ++ [cmpG (if cfg.p4 == 1 then "T:phase4-valign" else "T:phase4-packright") (phase4Simple cfg.p4 cfg.ns cfg.ls a) b]
+      else if a.nodes.size > 1 then
+        -- the other positioners: Y is `assignYCoords` of the layer heights they left behind
+        let b0 : G := { b with nodes := b.nodes.map fun n => { n with y := 0 } }
+        out := out ++ [cmpG "T:assignY" (pure (assignYCoords cfg.ls b0)) b]
+    | _, _ => pure ()
+    -- phase 5
+    match stageOf c 4, stageOf c 5 with
+    | some a, some b =>
+      if cfg.p5 != 3 then out := out ++ [cmpG "T:phase5" (phase5 cfg.p5 cfg.ls a) b]
+    | _, _ => pure ()
+    -- post-processing
+    match stageOf c 5, stageOf c 6 with
+    | some a, some b => out := out ++ [cmpG "T:post" (pure (postProcess a (loopsOf.getD ci []))) b]
+    | _, _ => pure ()
+  -- result collection
+  let finals := comps.filterMap fun c => stageOf c 6
+  if finals.length == comps.length then
+    let m := collect cfg 0 0 finals
+    out := out ++ [("T:output", m == real, firstDiffOut m real)]
   pure out
 
 end Autog
